@@ -10,8 +10,8 @@ import (
 // per entry. The side conditions that make an exemption sound are checked by rule L5; an entry
 // whose function or field no longer exists simply never matches.
 var unlockedStoreExempt = map[string]string{
-	"(*muxerStream).createFirstSegment|muxerStream.nextSegment": "first open segment: request code reads the open-segment slot only after hasContent() is true, which needs a locked, broadcast rotation that happens after this store (gate checked by L5)",
-	"(*muxerStream).createFirstSegment|muxerStream.nextPart":    "first open part: never read by request code (checked by L5); the writer is the only goroutine that touches the open part",
+	// empty since fix 6a00624: the first segment of a stream is now created under the muxer mutex, so the
+	// two unlocked stores to the open slots that used to be exempted here no longer exist
 }
 
 // unlocked request-side reads that are ordered by typestate rather than by the muxer mutex
